@@ -490,6 +490,7 @@ func c01Scenario(u *Unit, name string, sh c01Shape, fault *c01Fault) (*Tracker, 
 		tr = NewTracker(sc)
 		if fault != nil {
 			tr.Target, tr.Kind = &fault.B, fault.Kind
+			tr.ReturnHost = hosts[0]
 		}
 		s.Start()
 		// let every daemon publish its health record and the manager complete a few iterations
@@ -511,6 +512,11 @@ func c01Scenario(u *Unit, name string, sh c01Shape, fault *c01Fault) (*Tracker, 
 		case "manual_failover":
 			fileSwitch(sc, master, "", "manual", "failover", "operator")
 		case "auto_crash":
+			// the master dies holding a few binlogged transactions that reached nobody (never acknowledged)
+			s.W.Manual(master, "binlogged, unshipped transactions", func(x *world.Server) {
+				n := x.Executed.Max(x.UUID)
+				x.Executed.AddRange(x.UUID, n+1, n+3)
+			})
 			s.W.Crash(master)
 		case "auto_rofs":
 			s.SetROFS(master, true)
@@ -572,7 +578,7 @@ func c01Scenario(u *Unit, name string, sh c01Shape, fault *c01Fault) (*Tracker, 
 	return tr, res
 }
 
-var c01FaultKinds = []string{"fail", "hang", "delay", "server-dies-before", "server-dies-after", "session-expire", "dcs-fail"}
+var c01FaultKinds = []string{"fail", "hang", "delay", "server-dies-before", "server-dies-after", "session-expire", "dcs-fail", "old-master-returns-after"}
 
 func c01Run(u *Unit) {
 	sh := c01Gen(u.Seed, u.Idx)
@@ -601,6 +607,9 @@ func c01Run(u *Unit) {
 			if (k == "dcs-fail") != (b.Kind == "dcs") && k != "session-expire" {
 				continue
 			}
+			if k == "old-master-returns-after" && (sh.Req != "auto_crash" || b.Kind != "sql" || b.Host == haNames[0]) {
+				continue
+			}
 			faults = append(faults, c01Fault{b, k})
 		}
 	}
@@ -615,6 +624,14 @@ func c01Run(u *Unit) {
 	}
 	freeze := func(f c01Fault) bool {
 		if f.B.Kind != "sql" || f.B.Host == haNames[0] || f.B.Occ > 1 {
+			return false
+		}
+		if f.Kind == "old-master-returns-after" {
+			// the crashed master comes back after the positions were read: the calls of the later phases
+			switch f.B.Class {
+			case "change_source", "stop_replica", "reset_replica", "start_replica", "offline_off":
+				return true
+			}
 			return false
 		}
 		switch f.B.Class {
